@@ -14,6 +14,7 @@ import json
 import random
 
 import apidoc
+import incgraph
 import rel
 import textfn
 from common import Check, b64, harness, seed
@@ -173,6 +174,8 @@ def main(tier):
     if meta:
         x = next(iter(meta.values()))
         chk.sample({"form": x[1], "main": x[3][:500], "files": {k: v[:200] for k, v in x[4].items()}})
+    # include graphs enumerated by TLC (spec/JSightInclude.tla), replayed with the file-operation hook on
+    incgraph.run(chk, tier, "C08")
     chk.rule = ("pairs (flattened document, multi-file project) for forms one / nested_dirs / two_from_one_place / "
                 "with_empty_and_comment_files / url_children / same_file_twice; rejection cases: missing, directory, "
                 "unreadable, self/2/3-cycles, cycle back to the root, JSIGHT in included file, INCLUDE without name, 9 bad names; "
@@ -185,6 +188,9 @@ def replay(path):
     rp = json.load(open(path))["replay"]
     chk = Check("C08", "quick")
     chk.evaluations = 1
+    if rp["kind"] == "include_graph":
+        incgraph.replay(chk, rp, "C08")
+        return chk.finish()
     ff = {"main.jst": b64(rp["main"])}
     ff.update({k: b64(v) for k, v in rp["files"].items()})
     obs = harness("run", [{"id": "a", "files": ff, "root": "main.jst"}])
